@@ -187,6 +187,8 @@ def run(ctx):
     ctx.add_samples([json.loads(l) for l in lines if '"op":"seifert"' in l][3:4])
     # extensions: Path (components, circles) as a state machine
     ext2.path_part(ctx)
+    # ... and Tng / TngComp (tangles as glued arcs and circles; the bookkeeping of the tangle complex builder)
+    ext2.tng_part(ctx)
 
 
 def replay(ctx, path):
